@@ -312,6 +312,22 @@ func (w *World) newCollectionWith(logger commit.Logger, cols []ColSpec, idx []In
 		if col.Name == "expire" {
 			continue
 		}
+		if nk, numeric := nums[col.Kind]; w.cs.Run%4 == 1 && col.Merge == "" && (numeric || col.Kind == KBool || col.Kind == KString) {
+			// a quarter of the runs create their plain columns from an example value
+			var example any
+			switch {
+			case numeric:
+				example = nk.toAny(0)
+			case col.Kind == KBool:
+				example = false
+			default:
+				example = ""
+			}
+			if err := c.CreateColumnsOf(map[string]any{col.Name: example}); err != nil {
+				panic(err)
+			}
+			continue
+		}
 		if err := c.CreateColumn(col.Name, makeColumn(col)); err != nil {
 			panic(err)
 		}
